@@ -1,15 +1,15 @@
 SPECIFICATION MCSpec
 CONSTANTS Sender = {"s1", "s2"}
-          MaxFaults = 2
+          MaxFaults = 1
           MaxCfg = 0
-          Addr = {"A"}
+          Addr = {"A", "B"}
           Stall = FALSE
           QueueMode = FALSE
           QCap = 2
           MaxConn = 3
-          Broken = "keepwriter"
-          NPacks = 4
+          Broken = "dialpart"
+          NPacks = 3
 CONSTRAINT ConnBound
 VIEW MCView
-INVARIANTS TypeOK FreshStart
+INVARIANTS TypeOK Recovers
 CHECK_DEADLOCK FALSE
